@@ -1015,3 +1015,111 @@ def shr3(ctx):
                      "item %d of the `_,X` expansion must have %s = X%s and an empty %s (X mentioned: %s, reversed: %s, other side empty: %s)"
                      % (k, full, " reversed" if rev else " in order", empty, hit, "rev" in names, e_items == [] and not e_hit))
     return r
+
+
+# ---------------------------------------------------------------- RT-1 (render marks are read back as what they stand for)
+
+
+def rt1(ctx):
+    r = RuleResult("RT-1", "Word::render_normal's stress / boundary / length / tone marks are read back by Word::setup as the same stress kind, boundary, repetition and tone", floor=6)
+    lib = ctx.lib
+    rn = ctx.fn(lib, "asca::word::Word::render_normal")
+    st = ctx.fn(lib, "asca::word::Word::setup")
+    SKP = "asca::syll::StressKind::"
+    # writer: StressKind -> mark
+    W = {}
+    first_cond = None
+    for m in hirq.matches(rn):
+        if (m.get("sty") or "").endswith("syll::StressKind"):
+            for arm in m["arms"]:
+                kinds = [(p.get("path") or "")[len(SKP):] for p in hirq.flat_pats(arm["pat"]) if (p.get("path") or "").startswith(SKP)]
+                pushes = [hirq.strip(n["args"][0]).get("lit") for n in hirq.walk(arm["body"]) if n["e"] == "mcall" and n["name"] == "push" and n["args"]
+                          and hirq.strip(n["args"][0]).get("lk") == "char"]
+                for k in kinds:
+                    W[k] = pushes
+                if "Unstressed" in kinds:
+                    iff = [n for n in hirq.walk(arm["body"]) if n["e"] == "if"]
+                    if iff:
+                        c = hirq.strip(iff[0]["cond"])
+                        first_cond = (c.get("op"), hirq.strip(c.get("b") or {}).get("lit")) if c.get("e") == "binary" else None
+            break
+    if set(W) != {"Primary", "Secondary", "Unstressed"}:
+        raise AnchorMissing("render_normal: match on syll.stress not found (%s)" % sorted(W))
+    # reader: mark -> StressKind
+    R = {}
+    for m in hirq.matches(st):
+        arms = [(a, [p for p in hirq.flat_pats(a["pat"]) if p.get("p") == "lit" and p.get("lk") == "char"]) for a in m["arms"]]
+        if not any(ps for _, ps in arms):
+            continue
+        for a, ps in arms:
+            asg = [n for n in hirq.walk(a["body"]) if n["e"] == "assign" and hirq.strip(n["lhs"]).get("e") == "field" and hirq.strip(n["lhs"])["name"] == "stress"]
+            for p in ps:
+                for n in asg:
+                    rp = hirq.strip(n["rhs"]).get("path") or ""
+                    if rp.startswith(SKP):
+                        R[p["lit"]] = rp[len(SKP):]
+    if len(R) < 2:
+        raise AnchorMissing("Word::setup: mark -> StressKind table not found (%s)" % R)
+    # the renderer used with romanisers opens syllables exactly like the default renderer
+    ra = ctx.fn(lib, "asca::word::Word::render")
+    W2 = {}
+    first2 = None
+    for m in hirq.matches(ra):
+        if (m.get("sty") or "").endswith("syll::StressKind"):
+            for arm in m["arms"]:
+                kinds = [(p.get("path") or "")[len(SKP):] for p in hirq.flat_pats(arm["pat"]) if (p.get("path") or "").startswith(SKP)]
+                pushes = [hirq.strip(n["args"][0]).get("lit") for n in hirq.walk(arm["body"]) if n["e"] == "mcall" and n["name"] == "push" and n["args"]
+                          and hirq.strip(n["args"][0]).get("lk") == "char"]
+                for k in kinds:
+                    W2[k] = pushes
+                if "Unstressed" in kinds:
+                    iff = [n for n in hirq.walk(arm["body"]) if n["e"] == "if"]
+                    if iff:
+                        c = hirq.strip(iff[0]["cond"])
+                        first2 = (c.get("op"), hirq.strip(c.get("b") or {}).get("lit")) if c.get("e") == "binary" else None
+            break
+    ok = W2 == W and first2 == first_cond
+    r.inst("Word::render (with romanisers) opens syllables with the same marks as render_normal: %s" % W2, fn_loc(ra), "ok" if ok else "report")
+    if not ok:
+        r.report("RT-1|render-siblings", fn_loc(ra), ra.path, "Word::render writes the syllable marks %s (first-syllable condition %s), render_normal writes %s (%s)" % (W2, first2, W, first_cond))
+    for k in ("Primary", "Secondary"):
+        ok = len(W[k]) == 1 and R.get(W[k][0]) == k
+        r.inst("%s is written as %r and %r is read as %s" % (k, W[k], W[k][0] if W[k] else None, R.get(W[k][0]) if W[k] else None), fn_loc(rn), "ok" if ok else "report")
+        if not ok:
+            r.report("RT-1|stress|%s" % k, fn_loc(rn), rn.path, "%s stress is rendered as %r, which Word::setup reads as %s" % (k, W[k], R.get(W[k][0]) if W[k] else "nothing"))
+    # boundary
+    reader_eq = {hirq.strip(n["b"]).get("lit") for n in hirq.walk(st.hir["body"]) if n["e"] == "binary" and n["op"] == "Eq" and hirq.strip(n["b"]).get("lk") == "char"}
+    ok = W["Unstressed"] == ["."] and "." in reader_eq and first_cond == ("Gt", 0)
+    r.inst("an unstressed non-initial syllable is opened by %r (condition %s), which Word::setup tests" % (W["Unstressed"], first_cond), fn_loc(rn), "ok" if ok else "report")
+    if not ok:
+        r.report("RT-1|boundary", fn_loc(rn), rn.path,
+                 "unstressed syllables are opened by %r under the condition %s; expected '.' for every syllable but the first, and a reader test for it" % (W["Unstressed"], first_cond))
+    # length mark
+    wl = [n for n in hirq.walk(rn.hir["body"]) if n["e"] == "mcall" and n["name"] == "push" and hirq.strip(n["args"][0]).get("lit") == "ː"]
+    par = hirq.parent_map(rn.hir["body"])
+    cond_ok = False
+    for n in wl:
+        x = par.get(id(n))
+        while x is not None and x.get("e") != "if":
+            x = par.get(id(x))
+        if x is not None:
+            eqs = [c for c in hirq.walk(x["cond"]) if c["e"] == "binary" and c["op"] == "Eq"]
+            cond_ok = any(any(i["e"] == "index" for i in hirq.walk(c)) for c in eqs)
+    rl = [n for n in hirq.walk(st.hir["body"]) if n["e"] == "if" and any(c["e"] == "binary" and c["op"] == "Eq" and hirq.strip(c["b"]).get("lit") == "ː" for c in hirq.walk(n["cond"]))]
+    rd_ok = bool(rl) and any(m["e"] == "mcall" and m["name"] == "push_back" and any(b_["e"] == "mcall" and b_["name"] == "back" for b_ in hirq.walk(m)) for m in hirq.walk(rl[0]["then"]))
+    ok = len(wl) == 1 and cond_ok and rd_ok
+    r.inst("a repeated segment is written as 'ː' and 'ː' is read as a repetition of the last segment", fn_loc(rn), "ok" if ok else "report")
+    if not ok:
+        r.report("RT-1|length", fn_loc(rn), rn.path, "length mark: writer emits 'ː' for a segment equal to its predecessor (%s), reader repeats the last segment on 'ː' (%s)" % (cond_ok and len(wl) == 1, rd_ok))
+    # tone
+    wt = [n for n in hirq.walk(rn.hir["body"]) if n["e"] == "if" and any(c["e"] == "binary" and c["op"] == "Ne" and any(f["e"] == "field" and f["name"] == "tone" for f in hirq.walk(c))
+                                                                     and hirq.strip(c["b"]).get("lit") == 0 for c in hirq.walk(n["cond"]))]
+    w_ok = bool(wt) and any(m["e"] == "mcall" and m["name"] == "to_string" and any(f["e"] == "field" and f["name"] == "tone" for f in hirq.walk(m)) for m in hirq.walk(wt[0]["then"]))
+    rt = [n for n in hirq.walk(st.hir["body"]) if n["e"] == "assign" and hirq.strip(n["lhs"]).get("e") == "field" and hirq.strip(n["lhs"])["name"] == "tone"]
+    r_ok = len(rt) == 1 and any(m["e"] == "mcall" and m["name"] == "parse" for m in hirq.walk(rt[0]["rhs"]))
+    ok = w_ok and r_ok
+    r.inst("a non-zero tone is written as its decimal digits after the syllable; digits are parsed back into `.tone`", fn_loc(rn), "ok" if ok else "report")
+    if not ok:
+        r.report("RT-1|tone", fn_loc(rn), rn.path, "tone: writer appends tone.to_string() iff tone != 0 (%s); reader parses the digits into .tone (%s)" % (w_ok, r_ok))
+    # which syllable the tone closes: the reader pushes the syllable when it meets the digits
+    return r
